@@ -61,6 +61,7 @@ pub fn new_src(id: Id, script: &Script, k: K, sh: Rc<WrapShared>, cb_drop: Rc<Ce
         cb_this_dispatch: 0,
         pe_this_dispatch: 0,
         excused: false,
+        enabled_when_removed: false,
         rereg_at_start: 0,
         old_loop: false,
         was_disabled: false,
@@ -329,7 +330,9 @@ pub fn exec_op(sim: &Sim, op: &Op, in_cb: bool) {
                 s.enabled = false;
                 if own {
                     s.removed_in_own_cb = true;
-                } else {
+                    s.enabled_when_removed = enabled_before;
+                } else if enabled_before {
+                    // a disabled source is not unregistered a second time
                     s.exp[2] += 1;
                 }
                 if let K::Timer(t) = &mut s.k {
@@ -382,7 +385,7 @@ pub fn exec_op(sim: &Sim, op: &Op, in_cb: bool) {
                 stale_result(sim, *id, "disable", r);
                 return;
             }
-            if !own {
+            if !own && enabled {
                 sim.st.borrow_mut().srcs.get_mut(id).unwrap().exp[2] += 1;
             }
             match r {
@@ -427,6 +430,16 @@ pub fn exec_op(sim: &Sim, op: &Op, in_cb: bool) {
             // that is not disabled is outside the documented use
             if in_own_processing(sim, *id) || (inserted && enabled && !indet) {
                 return;
+            }
+            // the fd of a disabled source may have been given to another source meanwhile: two
+            // live sources never share an fd (that would be the program's bug)
+            {
+                let st = sim.st.borrow();
+                if let Some(K::Generic(g)) = st.srcs.get(id).map(|s| &s.k) {
+                    if st.srcs.iter().any(|(i, o2)| i != id && (o2.inserted && o2.enabled || o2.in_processing > 0) && matches!(&o2.k, K::Generic(g2) if Rc::ptr_eq(&g2.own.0, &g.own.0))) {
+                        return;
+                    }
+                }
             }
             let Some(r) = guarded(sim, "enable", || h.enable(&tok)) else { return };
             let fault = std::mem::replace(&mut sim.hk.borrow_mut().fault_window, false);
@@ -1013,10 +1026,15 @@ fn insert_generic(sim: &Sim, id: Id, fd: FdSpec, interest: u8, mode: u8, keep: b
             // loop while the program still holds it (an unregistered Generic that is dropped
             // later must not touch what the fd is registered for by then)
             let removed_but_kept = s.kept && !s.inserted && s.token.is_some() && s.in_processing == 0 && !s.sh.unwrapped.get() && !s.old_loop;
-            if !(g.released || removed_but_kept) || s.indeterminate || g.unusable && !g.released {
+            // ... or its source is merely disabled: the fd is not in the poller, somebody else may
+            // register it (the disabled source is not enabled again while that lasts, see Enable)
+            let disabled = s.inserted && !s.enabled && s.in_processing == 0 && !s.sh.unwrapped.get() && !s.old_loop && s.deferred.is_none();
+            if !(g.released || removed_but_kept || disabled) || s.indeterminate || g.unusable && !g.released {
                 return;
             }
-            if !g.released {
+            if disabled {
+                sim.probe("fd_of_disabled_source_inserted_again");
+            } else if !g.released {
                 sim.probe("fd_of_kept_removed_source_inserted_again");
             }
             // already re-inserted by somebody else - or by somebody who removed itself in its own
